@@ -8,6 +8,7 @@ env = core.base_env()
 env.pop("LLVM_CONFIG", None)
 env["PATH"] = os.path.join(core.GO124, "bin") + ":/usr/local/sbin:/usr/local/bin:/usr/sbin:/usr/bin:/sbin:/bin"
 w = core.Work("baseline")
+env["TMPDIR"] = w.tmp      # the suite leaves cgo-gcc-input-* / go-build* files behind
 mf = core.protect_gomod(w)
 p = subprocess.run(["go", "test", "-modfile=" + mf, "-json", "-vet=off", "-count=1", "-timeout", "25m", "./..."],
                    cwd=core.REPO, env=env, stdout=subprocess.PIPE, stderr=subprocess.DEVNULL)
